@@ -343,6 +343,10 @@ impl SemanticErrorList {
     #[verifier::external_body] pub fn new(source_file_path: crate::source::PathBuf) -> (r: SemanticErrorList)
         ensures r.kinds() == Seq::<SemanticErrorKind>::empty(), r.included().len() == 0
     { unimplemented!() }
+    /// unit SYM: SemanticErrorList::insert appends exactly one diagnostic of the given kind
+    #[verifier::external_body] pub fn insert<T: crate::synast::AstNode>(&mut self, kind: SemanticErrorKind, node: &T)
+        ensures final(self).kinds() == old(self).kinds().push(kind), final(self).included() == old(self).included()
+    { unimplemented!() }
 }
 impl SemanticErrorKind {
     /// semantic_error.rs: io::ErrorKind -> FileNotFound / PermissionDenied / IOError
@@ -801,6 +805,12 @@ decreases oq3_itf1.rest().len(),'''},
 }'''),
                # C07 / C09: `include "stdgates.inc"` makes every gate of the library visible (the library is defined by the include, unconditionally)
                ('                None\n', 'before', 'proof { assert(file_path@ == "stdgates.inc"@ ==> (forall|n: Seq<char>| #[trigger] std_gate(n) ==> context.resolve(n) is Some)); }     //@C07,C09:stdgates-include-defines-the-library'),
+               # C12: the diagnostic of an include that could not be read carries a node of the INCLUDING file (the path in its
+               # include statement), so it belongs to the including file's list; the unreadable file has no tree, hence no diagnostics
+               ('                    match included_parsed_source.include_error() {', 'before', 'let ghost midi = context;'),
+               ('                    context.push_errors_from_included_file(errors_in_included);', 'before', '''proof {
+    assert(included_parsed_source.sp_include_error() is Some ==> errors_in_included.kinds().len() == 0 && context.errs().len() == midi.errs().len() + 1);     //@C12:failed-include-is-reported-in-the-including-file
+}'''),
                ('    let errors = replace(&mut context.semantic_errors, save_errors);', 'before', 'proof { assert(true); }')])
     zov['analyze_source'] = dict(ret='r', props=['C11', 'C03'], spec='''requires
     !parsed_source.sp_have_syntax_errors() ==> source::analyzable(parsed_source.sp_syntax_ast(), parsed_source.sp_included()) /* AP: established by oq3_source_file::parse_included_files */,
